@@ -5,8 +5,12 @@ import (
 	"os"
 	"strings"
 
+	"github.com/cbehopkins/gkvlite"
+
+	"verif/internal/conc"
 	"verif/internal/driver"
 	"verif/internal/gen"
+	"verif/internal/sched"
 )
 
 // C15: item reference counting via callbacks is balanced and never premature.
@@ -18,15 +22,15 @@ var mixC15 = Mix{Set: 24, Delete: 9, Get: 3, GetItem: 5, Exist: 2, MinMax: 4, To
 func init() {
 	register(&Prop{
 		ID: "C15", Level: "exploration",
-		Rule: "case = random history (mutations incl. overwrites and deletes, lookups, all visit kinds and iterators, Len, EvictSomeItems, Flush, re-open, snapshots, SetCollection/RemoveCollection, suspended readers) over 1-3 collections with ItemAlloc/ItemAddRef/ItemDecRef installed and wired to a mutex-protected monitor that follows the documented protocol (allocated items start at 1; the application drops its own reference after SetItem and releases what lookups return). Checked online: no DecRef takes a count below zero; every item returned by GetItem/MinItem/MaxItem or passed to a visitor has a positive count; after every step every item cached in a node reachable from an open handle (hook walk) has a positive count. End of life: the snapshots and the store are closed in a seed-chosen order (stores abandoned by a re-open are closed too) and every count must be zero. Non-trivial = the history evicted or re-read items, deleted or overwrote some, and closed at least one snapshot or re-opened; distinct = distinct op-trace hash.",
+		Rule: "case = random history (mutations incl. overwrites and deletes, lookups, all visit kinds and iterators, Len, EvictSomeItems, Flush, re-open, snapshots, SetCollection/RemoveCollection, suspended readers) over 1-3 collections with ItemAlloc/ItemAddRef/ItemDecRef installed and wired to a mutex-protected monitor that follows the documented protocol (allocated items start at 1; the application drops its own reference after SetItem and releases what lookups return). Checked online: no DecRef takes a count below zero; every item returned by GetItem/MinItem/MaxItem or passed to a visitor has a positive count; after every step every item cached in a node reachable from an open handle (hook walk) has a positive count. Concurrent cases: 2-4 readers (lookups, visits, Min/Max in both value modes) next to a mutator that only evicts, on a cold file under the deterministic yield-point scheduler (switches at every file call, so two readers load the same uncached item at once and one loses the cache CAS); the store is then closed and every count must be zero. End of life: the snapshots and the store are closed in a seed-chosen order (stores abandoned by a re-open are closed too) and every count must be zero. Non-trivial = the history evicted or re-read items, deleted or overwrote some, and closed at least one snapshot or re-opened; distinct = distinct op-trace hash.",
 		Assumptions: []string{
 			"the application follows the documented protocol: it releases each item returned by GetItem/MinItem/MaxItem exactly once and does not retain visitor items",
 			"items created by Collection.Set() (not through ItemAlloc) start at count 0 from the monitor's point of view",
 		},
-		NumCases: func(tier string) int { return pick(tier, 800, 30000) },
+		NumCases: func(tier string) int { return pick(tier, 800, 30000) + pick(tier, 600, 20000) },
 		Run:      runC15,
 		Floor: func(tier string, st map[string]int64) string {
-			for _, k := range []string{"cb.ItemAlloc", "cb.ItemAddRef", "cb.ItemDecRef", "evicted", "op.SnapClose", "op.Reopen", "c15.end-of-life-balanced", "walks"} {
+			for _, k := range []string{"cb.ItemAlloc", "cb.ItemAddRef", "cb.ItemDecRef", "evicted", "op.SnapClose", "op.Reopen", "c15.end-of-life-balanced", "walks", "c15.concurrent-executions"} {
 				if st[k] == 0 {
 					return "no " + k + " observed"
 				}
@@ -42,6 +46,9 @@ func runC15(ctx *Ctx, idx int) Result {
 	SeedGlobalRand(seed)
 	if idx == 0 {
 		return runC15StaleRead(ctx)
+	}
+	if idx >= pick(ctx.Tier, 800, 30000) {
+		return runC15Concurrent(ctx, idx, r)
 	}
 	cfg := driver.Config{MemOnly: r.P(20), ReadbackK: []int{0, 1, 4}[r.Intn(3)], Walk: true, RefMon: true}
 	hc := HistCfg{Steps: r.Range(20, 70), NColls: r.Range(1, 3), NKeys: r.Range(4, 14), KeyClass: gen.KeysShort, ValClass: gen.ValsMixed,
@@ -112,4 +119,60 @@ func runC15StaleRead(ctx *Ctx) Result {
 	}
 	ctx.Add(e)
 	return Result{Hash: 15, NonTrivial: true, Viol: violOf(e), Sample: map[string]interface{}{"index": 0, "scripted": "stale-version-read", "ops": e.Trace}}
+}
+
+// runC15Concurrent: readers racing on the lazy-load caches with the reference monitor installed.
+func runC15Concurrent(ctx *Ctx, idx int, r *gen.R) Result {
+	p := c05Program(r, false, 0)
+	p.MemOnly = false
+	p.Cold = 1 + r.Intn(2)
+	p.Flusher = nil
+	// the mutator role only evicts: no version is superseded, so the recorded
+	// known finding (loads through a superseded version) cannot interfere
+	var ms []conc.Step
+	for i := 0; i < len(p.Mutator) && i < 12; i++ {
+		ms = append(ms, conc.Step{K: conc.MEvict, Coll: p.Mutator[i].Coll})
+	}
+	p.Mutator = ms
+	for i := range p.Readers {
+		for j := range p.Readers[i] {
+			if st := &p.Readers[i][j]; st.K == conc.RSnapshot {
+				st.K = conc.RGet
+			}
+		}
+	}
+	for len(p.Readers) < 2 {
+		p.Readers = append(p.Readers, append([]conc.Step{}, p.Readers[0]...))
+	}
+	rc := driver.NewRefMon()
+	p.Callbacks = &gkvlite.StoreCallbacks{
+		ItemAlloc: func(c *gkvlite.Collection, n uint32) *gkvlite.Item {
+			it := &gkvlite.Item{Key: make([]byte, n)}
+			rc.Alloc(it)
+			return it
+		},
+		ItemAddRef: func(c *gkvlite.Collection, i *gkvlite.Item) { rc.AddRef(i) },
+		ItemDecRef: func(c *gkvlite.Collection, i *gkvlite.Item) { rc.DecRef(i) },
+	}
+	p.CloseAtEnd = true
+	s := sched.New(&sched.Random{Next: r.Intn, Stick: []int{0, 30, 60}[r.Intn(3)]})
+	h, _ := conc.Run(p, conc.Mode{Sched: s})
+	ctx.Stats["c15.concurrent-executions"]++
+	ctx.Stats["c15.items-tracked"] += int64(rc.Tracked())
+	var v *Viol
+	switch {
+	case len(h.Panics) > 0 || h.Hung != "":
+		v = &Viol{Sig: "C15/concurrent/panic-or-hang", Detail: strings.Join(h.Panics, "\n") + h.Hung}
+	case rc.Violation() != "":
+		vs := rc.Violation()
+		v = &Viol{Sig: strings.SplitN(vs, ": ", 2)[0] + "/concurrent", Detail: vs}
+	default:
+		if items, refs, ex := rc.Outstanding(); items != 0 {
+			v = &Viol{Sig: "C15/end-of-life-imbalance/concurrent-readers", Detail: fmt.Sprintf("readers raced on the lazy-load caches (no mutation took place); after Close %d item(s) still carry %d reference(s), e.g. %s", items, refs, ex)}
+		} else {
+			ctx.Stats["c15.end-of-life-balanced"]++
+		}
+	}
+	return Result{Hash: s.Hash(), NonTrivial: true, Viol: v,
+		Sample: map[string]interface{}{"index": idx, "mode": "concurrent readers + evicting mutator, deterministic schedule", "readers": len(p.Readers), "decisions": len(s.Decisions)}}
 }
